@@ -341,6 +341,7 @@ pub fn gen_case(rng: &mut Rng, outside: bool) -> String {
 }
 
 pub fn gen(a: &Args) -> Vec<String> {
+    crate::eg::BIG_SYMMETRY.store(false, std::sync::atomic::Ordering::Relaxed);
     let outside = a.extra.iter().any(|x| x == "--outside");
     (0..a.count).map(|c| { let mut rng = Rng::new(a.seed, c); gen_case(&mut rng, outside) }).collect()
 }
